@@ -205,7 +205,7 @@ def _validate_one(trace_module, cfg, trace_file, timeout, xmx, extra_env):
 def validate_traces(trace_module, cfg, files, timeout=900, xmx="3g", par=None, extra_env=None):
     """Validate every NDJSON trace file against spec/<trace_module>.tla.  Returns
     (records_consumed, bad_entries) where each bad entry has label, line, scen, file."""
-    files = [f for f in files if os.path.getsize(f) > 0]
+    files = [f for f in files if os.path.exists(f) and os.path.getsize(f) > 0]
     if not files:
         raise ToolError("no trace was produced")
     par = par or min(NCPU, len(files))
@@ -242,26 +242,44 @@ def run_sessions(prop, scenarios, tier, hang_ms=5000, procs=None, prefix="sess")
         res = []
         start, rounds = 0, 0
         while True:
-            _, out, _ = run_vh(["sess", "--scenarios", spath, "--out", tdir,
-                                "--prefix", "%s%02d_%d" % (prefix, k, rounds), "--shards", 1,
-                                "--hang", hang_ms, "--part", k, "--parts", procs, "--start", start],
-                               timeout=3000)
+            pfx = "%s%02d_%d" % (prefix, k, rounds)
+            rc, out, err = run_vh(["sess", "--scenarios", spath, "--out", tdir, "--prefix", pfx, "--shards", 1,
+                                   "--hang", hang_ms, "--part", k, "--parts", procs, "--start", start],
+                                  timeout=3000, check=False)
+            rounds += 1
+            if rc != 0:
+                # the code under test took the whole process down (abort): note which scenario, keep the
+                # complete scenarios recorded before it, continue after it in a fresh process
+                started = [int(x.split()[1]) for x in err.splitlines() if x.startswith("SCN ")]
+                if not started or rounds > 40:
+                    sys.stdout.write(err[-2000:])
+                    raise ToolError("harness died (exit %d) outside a scenario" % rc)
+                tf = os.path.join(tdir, pfx + "-00.ndjson")
+                lines = open(tf).read().splitlines(True) if os.path.exists(tf) else []
+                lines = [x for x in lines if x.endswith("\n")]
+                last = max([i for i, x in enumerate(lines) if '"ev":"reset"' in x], default=0)
+                with open(tf, "w") as f:
+                    f.writelines(lines[:last])
+                res.append({"files": [tf], "scenarios": len(started) - 1, "aborted": [started[-1]]})
+                start = started[-1] + 1
+                continue
             d = _json.loads(out.strip().splitlines()[-1])
             res.append(d)
-            rounds += 1
-            if d.get("resume", -1) < 0 or rounds > 12:
+            if d.get("resume", -1) < 0 or rounds > 40:
                 return res
             start = d["resume"]
 
     with ThreadPoolExecutor(max_workers=procs) as ex:
         outs = list(ex.map(one, range(procs)))
     summ = {"scenarios": 0, "events": 0, "hung": 0, "with_panics": 0, "io_not_released": 0}
-    files = []
+    files, aborted = [], []
     for res in outs:
         for d in res:
             for k in summ:
                 summ[k] += d.get(k, 0)
             files += d["files"]
+            aborted += d.get("aborted", [])
+    summ["aborted"] = sorted(aborted)
     return files, summ
 
 
